@@ -34,7 +34,7 @@ From Coq Require Import ZArith List Bool.
 From DV Require Import Model.PyPrims Model.Tree Model.Heap Model.C15Prims Model.MutPrims Gen.Mutators
      Model.C03GenInst Model.C08GenPrims Gen.Extract Model.C08GenInst Proofs.C03Base
      Proofs.C08GenBase Proofs.C08GenSim Proofs.C08GenFinal Proofs.C08GenWrap.
-From DV Require Model.C08Model.
+From DV Require Model.C08Model Proofs.C08RemoveDist Proofs.C08RemoveDistHeap.
 Import ListNotations.
 Open Scope Z_scope.
 
@@ -111,3 +111,48 @@ Theorem extract_tree_without_taxa_labels_refines :
            (C08Model.extract_tree_without_taxa_labels_ns ns cs labels sup t).
 Proof. exact (fun h0 t on sup xs0 xe0 R S N L ns cs => gen_extract_tree_without_taxa_labels h0 t on sup xs0 xe0 R S N L (C08Model.get_taxa ns cs)). Qed.
 Print Assumptions extract_tree_without_taxa_labels_refines.
+
+(* ---- (wave 6) Node.remove_child(child, suppress_unifurcations=True): distance preservation at the pointer
+   level and for the GENERATED method (Gen/Mutators.v Node_remove_child; Props/C03Gen.v remove_child_refines).
+   h represents (Wr) a tree in which p - a node with a parent q - has the children lft ++ s :: rgt, where
+   lft ++ rgt is ONE node k; p's and k's edges carry lengths e and ek (no hypothesis on other lengths).
+   Removing s with suppression succeeds, the heap left represents a tree t', and every distance
+   (C08Model.dist) between two remaining nodes other than p is what it was.  For the generated method:
+   it returns the removed node and leaves a heap observationally equal (heq: every field of every node,
+   seed, rooting flag, next id) to that heap; hypotheses of the refinement: p is not its own child, the
+   live-list iterator has more fuel than any child list is long. ---- *)
+Theorem heap_remove_child_su_dist :
+  forall (h : heap) (c : C03Base.ctx) (q : Z) (xq lq eq : option Z) (a b : list tree) (p : Z) (x l : option Z) (e : Z)
+         (lft : list tree) (s : tree) (rgt : list tree) (ki : Z) (xk lk : option Z) (ek : Z) (kk : list tree),
+  lft ++ rgt = [T ki xk lk (Some ek) kk] ->
+  Wr h (plug c (T q xq lq eq (a ++ T p x l (Some e) (lft ++ s :: rgt) :: b))) ->
+  exists h' t',
+    Heap.remove_child p (t_id s) true h = HOk h' /\ Wr h' t' /\
+    forall u v, ~ In u (ids s) -> ~ In v (ids s) -> u <> p -> v <> p ->
+      C08Model.dist u v t' = C08Model.dist u v (plug c (T q xq lq eq (a ++ T p x l (Some e) (lft ++ s :: rgt) :: b))).
+Proof. exact C08RemoveDistHeap.heap_remove_child_su_dist_l. Qed.
+Print Assumptions heap_remove_child_su_dist.
+
+Theorem generated_remove_child_su_dist :
+  forall (fuel : nat) (h : heap) (c : C03Base.ctx) (q : Z) (xq lq eq : option Z) (a b : list tree) (p : Z) (x l : option Z)
+         (e : Z) (lft : list tree) (s : tree) (rgt : list tree) (ki : Z) (xk lk : option Z) (ek : Z) (kk : list tree),
+  lft ++ rgt = [T ki xk lk (Some ek) kk] ->
+  Wr h (plug c (T q xq lq eq (a ++ T p x l (Some e) (lft ++ s :: rgt) :: b))) ->
+  Heap.memz p (kids h p) = false -> (forall z, (length (kids h z) < fuel)%nat) ->
+  exists hg h' t',
+    Node_remove_child HG fuel p (t_id s) true h = MOk (t_id s) hg /\
+    heq hg h' /\ Wr h' t' /\
+    forall u v, ~ In u (ids s) -> ~ In v (ids s) -> u <> p -> v <> p ->
+      C08Model.dist u v t' = C08Model.dist u v (plug c (T q xq lq eq (a ++ T p x l (Some e) (lft ++ s :: rgt) :: b))).
+Proof. exact C08RemoveDistHeap.gen_remove_child_su_dist_l. Qed.
+Print Assumptions generated_remove_child_su_dist.
+
+Theorem generated_remove_child_su_dist_nonvacuous :
+  Wr (of_tree C08RemoveDist.exrd None)
+    (plug C03Base.CTop
+       (T 0 None None None ([] ++ T 1 None None (Some 3) ([] ++ T 2 (Some 10) None (Some 1) [] :: [T 3 (Some 11) None (Some 2) []])
+                                :: [T 4 (Some 12) None (Some 4) []]))) /\
+  Heap.memz 1 (kids (of_tree C08RemoveDist.exrd None) 1) = false /\
+  (forall z, (length (kids (of_tree C08RemoveDist.exrd None) z) < 10)%nat).
+Proof. exact C08RemoveDistHeap.gen_remove_child_su_dist_hyps. Qed.
+Print Assumptions generated_remove_child_su_dist_nonvacuous.
